@@ -1,6 +1,7 @@
 import BoolFn.Props.C01
 import BoolFn.Props.C08
 import BoolFn.Props.C16
+import BoolFn.Props.C03
 import BoolFn.Proofs.QuantET
 import BoolFn.Proofs.BddQuant
 import BoolFn.Proofs.BddOps
@@ -194,6 +195,18 @@ theorem mkConst_wf (v : Bool) : (Bdd.mkConst v : Bdd α).WF :=
   ⟨by simp [Bdd.mkConst, StrictSorted], rfl, Inner.wf_mkConst _ _⟩
 theorem mkLiteral_wf (x : α) (v : Bool) : (Bdd.mkLiteral x v).WF :=
   ⟨by simp [Bdd.mkLiteral, StrictSorted], rfl, Inner.wf_ofFn _ _⟩
+
+
+/-- canonicity at work: swapping the operands of a table operator gives the identical table value -/
+theorem table_and_comm_eq (a b : Table α) (ha : a.WF) (hb : b.WF) : Table.mkAnd a b = Table.mkAnd b a :=
+  canonical_table _ _ (C03.table_and a b ha hb).1 (C03.table_and b a hb ha).1
+    (C03.table_and_comm a b ha hb).1 (C03.table_and_comm a b ha hb).2
+theorem table_or_comm_eq (a b : Table α) (ha : a.WF) (hb : b.WF) : Table.mkOr a b = Table.mkOr b a :=
+  canonical_table _ _ (C03.table_or a b ha hb).1 (C03.table_or b a hb ha).1
+    (C03.table_or_comm a b ha hb).1 (C03.table_or_comm a b ha hb).2
+theorem table_xor_comm_eq (a b : Table α) (ha : a.WF) (hb : b.WF) : Table.mkXor a b = Table.mkXor b a :=
+  canonical_table _ _ (C03.table_xor a b ha hb).1 (C03.table_xor b a hb ha).1
+    (C03.table_xor_comm a b ha hb).1 (C03.table_xor_comm a b ha hb).2
 
 /-- non-vacuity: a table reached through a three-step history -/
 example : ReachT (Table.restrict [(2, true)] (Table.bitCommon (· != ·)
